@@ -1086,6 +1086,21 @@ func init() {
 		return Value{K: KTuple}
 	}
 	_ = noop
+	// math/bits.Len*(x): the minimum number of bits to represent x (0 for x == 0), as a table
+	for name, w := range map[string]int{"math/bits.Len64": 64, "math/bits.Len32": 32, "math/bits.Len16": 16, "math/bits.Len8": 8, "math/bits.Len": 64} {
+		width := w
+		stubs[name] = func(x *Exec, fr *Frame, st *State, callee *ssa.Function, args []Value, pos token.Pos) Value {
+			if x.m() != ModeInt || len(args) != 1 || args[0].K != KScalar {
+				return x.havocValue(st, types.Typ[types.Int], "bitslen")
+			}
+			res := IntLit(int64(width))
+			for k := width - 1; k >= 0; k-- {
+				res = Ite(iLt(args[0].X, IntLitBig(pow2(k))), IntLit(int64(k)), res)
+			}
+			return Value{T: types.Typ[types.Int], K: KScalar, X: res}
+		}
+		stubEffectTable[name] = newModSet
+	}
 	// Mutexes: a ghost lock state per mutex (0 = not held by this call chain, 1 = read-held, 2 =
 	// write-held), kept in heap components "Lock.<static location>" indexed by the owning object; the
 	// contract builtins wheld(m) / rheld(m) / unheld(m) read it. Only the sequential discipline of one
